@@ -5,3 +5,6 @@ package tch
 func (s *Sys) Probe() int {
 	return len(s.ctrl.GetPeerLinks(s.peers["A"]))
 }
+
+// Link returns the fake link with the given name.
+func (s *Sys) Link(name string) *FakeLink { return s.byName[name] }
